@@ -92,19 +92,11 @@ func execReflect(h *vh.H, op string) string {
 	}
 }
 
-// fail records an oracle failure; symptoms of one recorded root cause share a signature per
-// symptom kind.
+// fail records an oracle failure. (Until the repairs recorded in known_findings.d/schema.json the
+// symptoms of google.protobuf.Struct, google.protobuf.Duration and lists / maps of Any were folded
+// into one signature per root cause here; they are schema errors now, so nothing is folded and any
+// reappearance is reported under its own signature.)
 func fail(h *vh.H, sig, op, detail string) {
-	kind := strings.SplitN(sig, ":", 2)[0] // panic | codec-error | kind-mismatch | …
-	switch {
-	case strings.Contains(sig, "google.protobuf.Struct"):
-		sig, detail = "struct-as-map:"+kind, "["+sig+"] "+detail
-	case strings.Contains(sig, "-google.protobuf.Duration:") && strings.HasPrefix(sig, "panic:codec:decode:"):
-		sig, detail = "duration-as-string:panic:decode", "["+sig+"] "+detail
-	case strings.HasPrefix(sig, "codec-error:encode:list-") && strings.HasSuffix(sig, ".Any"),
-		strings.HasPrefix(sig, "codec-error:encode:map-") && strings.HasSuffix(sig, ".Any"):
-		sig, detail = "any-in-collection:codec-error:encode", "["+sig+"] "+detail
-	}
 	h.Fail(sig, op, detail)
 }
 
@@ -520,7 +512,7 @@ func checkField(h *vh.H, op, via, where string, fs j5schema.FieldSchema, fd prot
 			mismatch("any-for-" + c)
 		}
 	case *j5schema.MapField:
-		mismatch("map-for-" + fieldClass(fd)) // nested map: only google.protobuf.Struct gets here
+		mismatch("map-for-" + fieldClass(fd)) // a map as list item / map value
 	case *j5schema.ArrayField:
 		mismatch("array-for-" + fieldClass(fd))
 	case *j5schema.ScalarSchema:
@@ -540,7 +532,7 @@ func checkField(h *vh.H, op, via, where string, fs j5schema.FieldSchema, fd prot
 func scalarWants(f *schema_j5pb.Field) map[string]bool {
 	switch t := f.GetType().(type) {
 	case *schema_j5pb.Field_String_:
-		return map[string]bool{"string": true, "google.protobuf.Duration": t.String_.GetFormat() == "duration"}
+		return map[string]bool{"string": true}
 	case *schema_j5pb.Field_Key:
 		return map[string]bool{"string": true}
 	case *schema_j5pb.Field_Bool:
@@ -659,49 +651,8 @@ func checkCodec(h *vh.H, op string, codec *j5codec.Codec, md protoreflect.Messag
 	return good
 }
 
-// knownBadField: a field whose own per-field run already carries a recorded finding
-// (google.protobuf.Struct, google.protobuf.Duration, a list / map of Any).
-func knownBadField(fd protoreflect.FieldDescriptor) bool {
-	el := fd
-	if fd.IsMap() {
-		el = fd.MapValue()
-	}
-	switch fieldClass(el) {
-	case "google.protobuf.Struct", "google.protobuf.Duration":
-		return true
-	case "google.protobuf.Any", "j5.types.any.v1.Any":
-		return fd.IsList() || fd.IsMap()
-	}
-	return false
-}
-
-// reachesKnownBad: the message populated `depth` levels deep contains such a field.
-func reachesKnownBad(md protoreflect.MessageDescriptor, depth int) bool {
-	fs := md.Fields()
-	for i := 0; i < fs.Len(); i++ {
-		fd := fs.Get(i)
-		if knownBadField(fd) {
-			return true
-		}
-		el := fd
-		if fd.IsMap() {
-			el = fd.MapValue()
-		}
-		if depth > 0 && fieldClass(el) == "message" && reachesKnownBad(el.Message(), depth-1) {
-			return true
-		}
-	}
-	return false
-}
-
 // checkCodecAll: every field populated (nested messages one level deep).
 func checkCodecAll(h *vh.H, op string, codec *j5codec.Codec, md protoreflect.MessageDescriptor) {
-	if reachesKnownBad(md, 2) {
-		// the combined case would only repeat a recorded per-field finding under a broad signature
-		// (nested, the error surfaces; at the top level an exposed oneof swallows it in IsSet)
-		h.Count("reflect.codec.all-skipped-known-class")
-		return
-	}
 	name := string(md.FullName())
 	fields := md.Fields()
 	wrapper := j5schema.IsOneofWrapper(md)
